@@ -15,6 +15,8 @@
 //! *   observe whether every `invariant!()` expression evaluates to `true`
 //!     (only with the additional `--cfg fast_tlsh_verif_invariants`).
 
+pub use crate::compare::dist_body::verif_hooks as dist_body;
+
 /// The explicit internal state of a generator.
 ///
 /// `buckets` always has 256 entries; only the first `NUMBER_OF_BUCKETS` ones
